@@ -21,7 +21,7 @@ ID = "C10"
 MANIFEST = {
     "technique": "model-based property testing (Hypothesis): record-field reference model (projection, zip/unzip, with_field, dict conversion) and the level-by-level slicing model vs Content::getitem_field(s)/getitem/setitem_field/keys/field through the C bridge and vs a['x'], a.x, ak.zip, ak.unzip, ak.with_field, ak.to_list of /repo's Python layer on the awkward._ext emulation, on generated record-bearing physical encodings; ASan/UBSan twin",
     "level_text": "Generated-input exploration. (a) record-bearing arrays (named records and tuples with 0-3 fields, nested records, contents longer than the record length, explicit lengths, __record__ names) under 0-3 wrappers (variable and regular lists, every option encoding, IndexedArray of every width, unions with a second record or a non-record member) x a field, a nested field path or a list of fields x a positional slice tuple (integers, ranges with steps, integer arrays, masks, ellipsis, newaxis, missing-value and jagged indexes, all confined to the list levels above the record): a[field] must equal the model's projection (values and declaration order of the kept fields), and a[field][slice], a[slice][field] and a[slice + (field,)] must all equal the model's slice of the projection (or all raise for an out-of-range index), through Content::getitem and through ak.Array.__getitem__/__getattr__. keys/haskey/fieldindex/key/field(i)/fields agree with the declared fields. (b) ak.unzip(ak.zip(columns)) for 1-3 columns of equal list structure (depth 0-2, any encodings, leaf types numbers/strings/options/records) given as dict or tuple, with_name/depth_limit variants: same values and the same item types as the columns; the zipped records are dicts in the given key order (tuples for a tuple). (c) ak.with_field(base, what, where), ak.Array.__setitem__ and RecordArray::setitem_field for where in {existing name, new name, None}, what a scalar or an array that has base's list structure down to some level (possibly deeper structure below the record): reading the field gives `what` broadcast to the records, all other fields, the number and positions of records, missing records, the record name and the enclosing lists are unchanged, key order is old fields then the new one. (d) ak.to_list / ak.to_list of single records: dicts in declaration order, tuples for unnamed fields. Held on everything generated outside the recorded known findings.",
-    "level_note": "Trusted: akmodel.fields, akmodel.slicing (self-validated against NumPy in C01), akmodel.decode, the /verif bridge and the awkward._ext emulation (a re-statement of the pybind11 binding, which cannot be compiled here: the binding's translation of a Python index into a Slice is modelled, not tested). Not exercised: with_field on unions; positional items that reach below the record level (they apply to every field, so a too-shallow sibling field decides the outcome and commutation is not claimed); right_broadcast variants of ak.zip; behaviors.",
+    "level_note": "Trusted: akmodel.fields, akmodel.slicing (self-validated against NumPy in C01), akmodel.decode, the /verif bridge and the awkward._ext emulation (a re-statement of the pybind11 binding, which cannot be compiled here: the binding's translation of a Python index into a Slice is modelled, not tested). Not exercised: with_field on unions; positional items that reach below the record level (they apply to every field, so a too-shallow sibling field decides the outcome and commutation is not claimed); right_broadcast variants of ak.zip; behaviors. with_field / __setitem__ also take `where` as a one-element list or tuple and as a path below an outer record; the keys of the result are compared with 'the other fields, then the new one'.",
 }
 RULE = ("case = one of: (record-bearing description, field path or field list, positional slice items, api in {layout, ak.Array}); "
         "(1-3 column descriptions of equal list structure, names or tuple, with_name, depth_limit); "
